@@ -68,6 +68,7 @@ func agree(c *mc.Ctx, t tuple, what string) (ks, auth []byte, ok bool) {
 	okC, ksC, authC := ntor.ClientHandshake(t.x, t.y.Public(), t.id.Public(), nid(t.node))
 	okS, ksS, authS := ntor.ServerHandshake(t.x.Public(), t.y, t.id, nid(t.node))
 	rks, rauth, rokC, rokS := refOutputs(t)
+	c.Case(what, fmt.Sprintf("%v %v %x", okC, okS, rks[:4]))
 	if okC != rokC || okS != rokS {
 		fail(c, "status", "status", "%s: status client=%v server=%v, reference client=%v server=%v", what, okC, okS, rokC, rokS)
 		return nil, nil, false
@@ -196,6 +197,7 @@ func scenarios(cfg *mc.Config, emit func(mc.Scenario)) {
 					// server view: it receives X
 					okS, ksS, authS := ntor.ServerHandshake(pub(v.x), t.y, t.id, nid(v.node))
 					n++
+					c.Case(v.name+fmt.Sprint(bi, ell), fmt.Sprint(okC, okS))
 					changedC := !bytes.Equal(v.y, Y) || !bytes.Equal(v.b, B) || !bytes.Equal(v.node, t.node)
 					changedS := !bytes.Equal(v.x, X) || !bytes.Equal(v.node, t.node)
 					if changedC && okC && (bytes.Equal(ksC.Bytes()[:], ks0) || bytes.Equal(authC.Bytes()[:], auth0)) {
